@@ -208,7 +208,7 @@ class Inliner:
         from .normalize import desugar_tables, matchify, might_apply, might_dispatch, might_matchify, might_unroll, normalize_formats, unroll_literal_loops
 
         cand = self._has_candidate(f.raw)
-        fmt = might_apply(f.raw) or might_dispatch(f.raw, f.module.top) or might_unroll(f.raw) or might_matchify(f.raw) or cand
+        fmt = might_apply(f.raw) or might_dispatch(f.raw, f.module.top) or might_unroll(f.raw, f.module.top) or might_matchify(f.raw) or cand
         if not cand and not fmt:
             out = self._roles(f, f.raw)
             self.cache[key] = out
@@ -218,7 +218,7 @@ class Inliner:
             node = copy.deepcopy(f.raw)
             changed = self._block_owner(node, f, node) if cand else False
             if fmt or changed:
-                changed |= unroll_literal_loops(node)
+                changed |= unroll_literal_loops(node, f.module.top)
                 changed |= normalize_formats(node, f.module.top)
                 changed |= desugar_tables(node, f.module.top)
                 changed |= matchify(node)
@@ -243,13 +243,18 @@ class Inliner:
 
     # ------------------------------------------------------------------
     def _roles(self, f, node):
-        from .roles import ROLES
-        from .canon import rename_roles_node
+        from .roles import ALIASES, ROLES
+        from .canon import dissolve_aliases, rename_roles_node
 
-        fd = ROLES.get(f.key) if f.kind == "func" else None
-        if fd is None:
+        if f.kind != "func":
             return node
-        return rename_roles_node(node, fd)
+        fd = ROLES.get(f.key)
+        if fd is not None:
+            node = rename_roles_node(node, fd)
+        al = ALIASES.get(f.key)
+        if al is not None:
+            node = dissolve_aliases(node, al)
+        return node
 
     # ------------------------------------------------------------------
     def dissolved(self) -> set[str]:
